@@ -63,7 +63,8 @@ func otExpectation(w *World, ot store.Obj) (invalid string, data map[string]stri
 			if !found {
 				return "source key missing", nil, targetKey
 			}
-			cfg[strings.TrimPrefix(dest, ".")] = fmt.Sprint(v)
+			// destinations are .a/.b, or .n.a/.n.b when the scenario nests them below one key
+			cfg[strings.TrimPrefix(strings.TrimPrefix(dest, "."), "n.")] = fmt.Sprint(v)
 		}
 	}
 	switch {
